@@ -9,6 +9,7 @@ import Proofs.LeftSubsume
 import Proofs.LeftReveal
 import Proofs.LeftRevealB
 import Proofs.LeftBoth
+import Proofs.LeftSquare
 import Proofs.WellFormed
 /-! C08 — Chart-state scoring equals left-to-right scoring for every derivation.
 
@@ -366,5 +367,36 @@ theorem any_derivation_fails_with_dropped_marks :
 /-- the wrong total: instead of the 4-gram probability −1/16 the last word gets bo(a b c) + p(d) = −1/8 − 4 -/
 example : (ruleScore (build demo (fun g => g == [4,3])) (noRest (build demo (fun g => g == [4,3]))) (some 1) demoRule).2 =
     -143/24 := by decide +kernel
+
+/-! ## open chart states are square: two unreachable branches of `NonTerminal` -/
+
+/-- **Every chart state a derivation produces is square**: while `left.full` is false, every word sits in both halves,
+`right.length = left.length`.  Any table, any rest function, no hypothesis. -/
+theorem open_states_square (T : Table) (R : Ptr → Rat) (bos : Option Word) (r : Rule) :
+    ((ruleScore T R bos r).1).left.full = false →
+      ((ruleScore T R bos r).1).right.length = ((ruleScore T R bos r).1).left.length :=
+  ruleScore_sq T R bos r
+
+/-- **Two branches of `RuleScore::NonTerminal` are unreachable through the API**: with the running object obtained by
+applying any items (`pre`, after `BeginSentence` or not) and the argument state obtained from any derivation `r`,
+neither `left.hh:105-106` (`right.length == 0`, `!left_done_`, `left.length != 0`) nor the shortcut `left.hh:135-137`
+(`!in.left.full && in.right.length < in.left.length`) can be taken.  (kenlm's own tests never execute them either;
+mutants inside them are equivalent mutants for every caller that only passes states made by `RuleScore`.) -/
+theorem nonterminal_dead_branches (T : Table) (R : Ptr → Rat) (bos : Option Word) (pre r : Rule) :
+    let rs0 := match bos with | some b => beginSentence T R b RS.init | none => RS.init
+    let rs := applyRule T R rs0 pre
+    let c := (ruleScore T R none r).1
+    ¬ (rs.out.right.length = 0 ∧ rs.leftDone = false ∧ rs.out.left.length ≠ 0) ∧
+    ¬ (c.left.full = false ∧ c.right.length < c.left.length) := by
+  intro rs0 rs c
+  have h0 : Sq rs0 := by
+    cases bos with
+    | none => exact init_sq
+    | some b => exact beginSentence_sq T R b RS.init
+  have hs : Sq rs := applyRule_sq T R pre h0
+  have hc : SqC c := ruleScore_sq T R none r
+  refine ⟨fun ⟨h1, h2, h3⟩ => ?_, fun ⟨h1, h2⟩ => ?_⟩
+  · have := hs h2; omega
+  · have := hc h1; omega
 
 end KV.C08
